@@ -432,3 +432,26 @@ func withAlloc(v ssa.Value, fn func(*ssa.Alloc)) bool {
 	})
 	return found
 }
+
+// tailReturnSites lists the success returns of fn, following "return helper(...)"
+// into the unexported helpers fn was split into: the returns that actually
+// build the value, each with its call chain.
+func tailReturnSites(fn *ssa.Function) []core.DeepSite {
+	var out []core.DeepSite
+	var collect func(f *ssa.Function, chain []ssa.CallInstruction, calls []*ssa.Call)
+	collect = func(f *ssa.Function, chain []ssa.CallInstruction, calls []*ssa.Call) {
+		for _, ret := range core.SuccessReturns(f) {
+			if len(ret.Results) > 0 && len(calls) < core.InterDepth {
+				if call, idx := core.CallResult(core.Strip(ret.Results[0])); call != nil && idx == 0 {
+					if h := core.ModuleCallee(call.Common()); h != nil && h != f && len(core.SplitFind(f, nil, func(in ssa.Instruction) bool { return in == ssa.Instruction(call) })) > 0 && splitFuncs(f, nil)[h] {
+						collect(h, append(append([]ssa.CallInstruction{}, chain...), call), append(append([]*ssa.Call{}, calls...), call))
+						continue
+					}
+				}
+			}
+			out = append(out, core.DeepSite{Instr: ret, Fn: f, Chain: chain})
+		}
+	}
+	collect(fn, nil, nil)
+	return out
+}
